@@ -260,7 +260,22 @@ def check_position(card: str, n: int, t: Tally) -> List[Violation]:
     m = u.schema.msg(name)
     cls = getattr(u.bp, name)
     defined = n in u.schema.enum("Color").numbers
-    aval = {"f": [n, n] if card == "repeated" else ({"k": n} if card == "map" else n)}
+    out: List[Violation] = []
+    if card == "repeated":
+        # mixed lists too: a defined member next to an undefined number, in either order (to_dict
+        # writes names for the former and numbers for the latter in ONE JSON list)
+        nums = sorted(u.schema.enum("Color").numbers)
+        others = [nums[0], nums[-1], 7, -5, 100]
+        lists = [[n, n]] + [l for o in others if o != n for l in ([n, o], [o, n], [o, n, o])]
+    else:
+        lists = [None]
+    for lst in lists:
+        out.extend(_check_position_value(u, m, cls, name, card, n, defined, lst, t))
+    return out
+
+
+def _check_position_value(u, m, cls, name, card, n, defined, lst, t) -> List[Violation]:
+    aval = {"f": lst if card == "repeated" else ({"k": n} if card == "map" else n)}
     out: List[Violation] = []
 
     def bad(oracle: str, detail: str):
@@ -275,12 +290,13 @@ def check_position(card: str, n: int, t: Tally) -> List[Violation]:
         if not av.aval_eq(av.project_bp(u.schema, m, back), exp):
             bad("binary", f"binary round trip gives {av.project_bp(u.schema, m, back)!r}")
         elems = back.f if card == "repeated" else (list(back.f.values()) if card == "map" else [back.f])
-        for x in elems:
-            if not (x == n) or int(x) != n:
-                bad("binary", f"decoded element {x!r} != {n}")
+        for x, want in zip(elems, lst if card == "repeated" else [n] * len(elems)):
+            n_, defined_ = want, want in u.schema.enum("Color").numbers
+            if not (x == n_) or int(x) != n_:
+                bad("binary", f"decoded element {x!r} != {n_}")
             if card != "map" and not isinstance(x, u.bp.Color):
                 bad("binary-type", f"decoded element is {type(x).__name__}, not Color")
-            if card != "map" and defined and x is not u.bp.Color(n):
+            if card != "map" and defined_ and x is not u.bp.Color(n_):
                 bad("binary-canonical", "decoded defined number is not the canonical member")
     except Exception as e:
         bad("binary", f"{type(e).__name__}: {e}")
